@@ -229,3 +229,23 @@ func TestNoEffectsAfterRootReturns(t *testing.T) {
 		t.Fatal("no schedule left the goroutine alive at return: the test does not exercise the kill path")
 	}
 }
+
+// A polling loop (select with default) must not starve the rest of the program under any strategy.
+func TestPollingLoopMakesProgress(t *testing.T) {
+	for kind := 0; kind < 5; kind++ {
+		got := 0
+		o := Run(Config{Seed: 7, Strategy: Strategy{Kind: kind, SwitchP: 0.01, Depth: 1, Horizon: 10}, MaxSteps: 200000}, func() {
+			c := MakeChan[int](0, "c")
+			Go("producer", func() { c.Send(42) })
+			for got == 0 {
+				var v int
+				if Select(c.RecvCase(&v, nil), Default()) == 0 {
+					got = v
+				}
+			}
+		})
+		if o.Kind != Returned || got != 42 {
+			t.Fatalf("strategy %d: %v got=%d steps=%d", kind, o.Kind, got, o.Steps)
+		}
+	}
+}
